@@ -55,7 +55,7 @@ def impl(case):
                 for a, b in g[k]:
                     G.add_edge(lab(a), lab(b), edge_type=nm)
         else:
-            G = C.build_mixed(g, lab, layers=tuple(layers))
+            G = C.build_mixed(g, lab, layers=tuple(layers), names=case.get("names"))
     except Exception as e:  # construction problems are not what C01 is about
         return {"ans": "err:build:" + type(e).__name__}
     X = {lab(v) for v in case["X"]}
@@ -63,12 +63,19 @@ def impl(case):
     Z = {lab(v) for v in case["Z"]}
     if C.warm_decide(case, 4):
         # query, edit the same object in place, query again (per-object memo tables / cached views go stale)
-        C.warmup(G, lambda: pywhy_nx.m_separated(G, set(X), set(Y), set(Z)), layers=("directed", "bidirected", "undirected"))
+        _n = case.get("names") or {"D": "directed", "B": "bidirected", "U": "undirected"}
+        _kw = ({"directed_edge_name": _n["D"], "bidirected_edge_name": _n["B"], "undirected_edge_name": _n["U"]}
+               if case.get("names") else {})
+        C.warmup(G, lambda: pywhy_nx.m_separated(G, set(X), set(Y), set(Z), **_kw), layers=(_n["D"], _n["B"], _n["U"]))
     before = C.snapshot(G)
+
+    nm = case.get("names")
+    kwn = ({"directed_edge_name": nm["D"], "bidirected_edge_name": nm["B"], "undirected_edge_name": nm["U"]}
+           if nm else {})
 
     def call(a, b):
         try:
-            r = pywhy_nx.m_separated(G, set(a), set(b), set(Z))
+            r = pywhy_nx.m_separated(G, set(a), set(b), set(Z), **kwn)
             return "T" if r is True else ("F" if r is False else "bad:" + repr(r))
         except nx.NetworkXError as e:
             return "err:cyclic" if "acyclic" in str(e) else "err:nx"
@@ -128,6 +135,9 @@ def gen_cases(ctx):
             case["layers"] = present
         if i % 7 == 2:
             case["cls"] = "ADMG"
+        elif i % 7 == 4:
+            # the edge-type names are parameters of m_separated: non-default names must behave the same
+            case["names"] = {"D": "arrow", "B": "confounded", "U": "line", "C": "circle"}
         yield case
 
 
